@@ -470,6 +470,12 @@ def v6_derived_constructors(ctx) -> None:
         if _assigned_name(n) != run:
             continue
         done = True
+        # every step of the path takes part: a step with an empty table maps *nothing* on (the running map must
+        # become empty), so it may not be skipped
+        skipping = [(norm(t), p_) for t, p_ in C.guards(f, C.stmt_of(n), within=step) if not isinstance(getattr(t, "_parent", None), ast.Assert)]
+        if skipping:
+            ctx.violation("V6", C.stmt_of(n), f"the running map is composed with a step's table only under {skipping}: a step that is skipped lets statistics of the first class "
+                          "through to names the later classes use for something else (a step whose table is empty ends every statistic)")
         a, b = norm(g.target.elts[0]), norm(g.target.elts[1])
         okk = norm(n.key) == a and isinstance(n.value, ast.Subscript) and norm(n.value.value) == rpn and norm(n.value.slice) == b
         okf = len(g.ifs) == 1 and norm(g.ifs[0]) == f"{b} in {rpn}"
